@@ -213,6 +213,28 @@ def wavelength(c):
         c.ensure_eq('C07.wavelength.surface_step_ignores_it', b, a, tol=0)
 
 
+@contract('C07.wavelength.kernels', FUNCS, ['C07'], bundle=True, max_paths=256, concolic=False)
+def wavelength_kernels(c):
+    """the geometry kernels do not look at the wavelength of the rays: same distance, same normal for two wavelengths"""
+    geos = c.mod('optiland.geometries')
+    CoordinateSystem = c.mod('optiland.coordinate_system').CoordinateSystem
+    R, k = c.real('R', -60, 60, nonzero=True), c.real('k', -2, 1)
+    g = geos.StandardGeometry(CoordinateSystem(), R, k)
+    p, d = free_point(c), c.unit3('L', 'M', 'N')
+    w1, w2 = c.real('w1', 0.3, 2, positive=True), c.real('w2', 0.3, 2, positive=True)
+    t1, t2 = g.distance(mk_rays(c, p, d, w=w1)), g.distance(mk_rays(c, p, d, w=w2))
+    c.ensure_eq('C07.wavelength.kernel.distance_ignores_it', c.val(t2), c.val(t1))
+    x, y = c.real('x', -3, 3), c.real('y', -3, 3)
+    c.require(1 - (1 + k) * (x * x + y * y) / (R * R) > 0)
+    n1 = g.surface_normal(mk_rays(c, (x, y, 0.0), d, w=w1))
+    n2 = g.surface_normal(mk_rays(c, (x, y, 0.0), d, w=w2))
+    for a, b in zip(n1, n2):
+        c.ensure_eq('C07.wavelength.kernel.normal_ignores_it', c.val(b), c.val(a))
+    pl = geos.Plane(CoordinateSystem())
+    c.require(d[2] != 0)
+    c.ensure_eq('C07.wavelength.kernel.distance_ignores_it', c.val(pl.distance(mk_rays(c, p, d, w=w2))), c.val(pl.distance(mk_rays(c, p, d, w=w1))))
+
+
 def _scale_contract(finite):
     @contract('C07.scale_system.' + ('finite' if finite else 'infinite'), ['optiland/optic.py:Optic.scale_system', 'optiland/optic.py:Optic.set_thickness',
                                                                          'optiland/optic.py:Optic.set_radius',
@@ -348,7 +370,14 @@ def _step_by_contract(kind, mirror):
         c.require(d0 != 0)
         if not mirror:
             c.require(1 - (n1 / n2) ** 2 * (1 - d0 * d0) > 0)
-        if kind == 'scale':
+        w_a = w_b = 0.55
+        if kind == 'wavelength':
+            # dispersion-free media; the kernels' contract (C07.wavelength.kernels) says distance and normal ignore the wavelength
+            w_a, w_b = c.real('w1', 0.3, 2, positive=True), c.real('w2', 0.3, 2, positive=True)
+            map_p = map_d = lambda v: v
+            t2, n2v, z2 = t, nrm, zv
+            sig = (1, 1, 1, 1, 1, 1)
+        elif kind == 'scale':
             s = c.real('scale', 0.2, 5, positive=True)
             map_p = lambda v: tuple(s * x for x in v)
             map_d = lambda v: v
@@ -361,22 +390,24 @@ def _step_by_contract(kind, mirror):
             t2, n2v, z2 = t, map_p(nrm), zv
             sig = (sx, sy, 1, sx, sy, 1)
 
-        def run(pp, dd, tt, nn, zz):
+        def run(pp, dd, tt, nn, zz, ww):
             geo = _abstract_geometry(c, CoordinateSystem(z=zz), tt, nn)
             surf = surfs.Surface(geo, mats.IdealMaterial(n1, 0.0), mats.IdealMaterial(n2, 0.0), is_reflective=mirror)
-            r = mk_rays(c, pp, dd)
+            r = mk_rays(c, pp, dd, w=ww)
             surf.trace(r)
             return pos_of(c, r) + dir_of(c, r), c.val(r.opd), c.val(r.i)
-        (s1, o1, i1) = run(p, d, t, nrm, zv)
-        (s2, o2, i2) = run(map_p(p), map_d(d), t2, n2v, z2)
+        (s1, o1, i1) = run(p, d, t, nrm, zv, w_a)
+        (s2, o2, i2) = run(map_p(p), map_d(d), t2, n2v, z2, w_b)
         for a, b, sg in zip(s1, s2, sig):
-            c.ensure_eq('C07.surface_step.by_contract.%s' % ('lengths_scale_directions_unchanged' if kind == 'scale' else 'is_equivariant_under_the_mirror'), b, sg * a)
+            c.ensure_eq('C07.surface_step.by_contract.%s' % ('lengths_scale_directions_unchanged' if kind == 'scale' else
+                                                             'ignores_the_wavelength_of_a_dispersion_free_lens' if kind == 'wavelength' else
+                                                             'is_equivariant_under_the_mirror'), b, sg * a)
         c.ensure_eq('C07.surface_step.by_contract.optical_path_%s' % ('scales' if kind == 'scale' else 'unchanged'), o2, (sig[0] if kind == 'scale' else 1) * o1)
         c.ensure_eq('C07.surface_step.by_contract.intensity_unchanged', i2, i1)
     return sb
 
 
-for _kind in ('mirror_x', 'mirror_y', 'mirror_xy', 'scale'):
+for _kind in ('mirror_x', 'mirror_y', 'mirror_xy', 'scale', 'wavelength'):
     for _m in (False, True):
         _step_by_contract(_kind, _m)
 
